@@ -420,6 +420,27 @@ def o_mp_mode(p, cfg):
 ORACLES["mp_mode"] = o_mp_mode
 
 
+def o_client_cli(p, cfg):
+    """C20: a client verb with its options has the effect of the API call with those values."""
+    import subprocess
+    store, props, root = new_store(cfg)
+    data = tmp_input(root, b"client bytes", "c.bin")
+    argv = [sys.executable, "-m", "hashstore.hashstoreclient", props["store_path"]] + [
+        a.replace("{data}", data).replace("{size}", str(len(b"client bytes"))) for a in p["argv"]]
+    r = subprocess.run(argv, capture_output=True, text=True, timeout=60)
+    lay = layout.Layout(props)
+    view = lay.view()
+    if r.returncode != 0:
+        last = (r.stderr.strip().splitlines() or ["?"])[-1]
+        return True, f"client {' '.join(p['argv'])} failed: {last[:200]}"
+    if p.get("expect_bound") and p["expect_bound"] not in view["P"]:
+        return True, "client reported success but the pid is not bound"
+    return False, "client call had the effect of the API call"
+
+
+ORACLES["client_cli"] = o_client_cli
+
+
 # ---------------------------------------------------------------------------------------------------
 # one-preemption schedules (C07): thread A is paused at one point, thread B runs to completion
 # ---------------------------------------------------------------------------------------------------
